@@ -292,6 +292,76 @@ print(json.dumps(out))
 """
 
 
+RAW_DECL_MOD = """from twosigma.memento import memento_function
+
+RATE = 3
+
+
+def helper(x):
+    return x * RATE
+
+
+@memento_function(auto_dependencies=False)
+def m1(x):
+    return helper(x)
+
+
+@memento_function(auto_dependencies=False, dependencies=["helper"])
+def m2(x):
+    return helper(x) + 1
+
+
+@memento_function(cluster="vp")
+def later(x):
+    return x
+"""
+RAW_DECL_CHILD = """import json, sys
+sys.path.insert(0, sys.argv[1])
+from vpk import mod
+order = json.loads(sys.argv[2])
+out = {}
+make = {"m1": lambda: mod.m1, "m2": lambda: mod.m2, "m1.ignore_result": lambda: mod.m1.ignore_result(),
+        "m1.partial": lambda: mod.m1.partial(), "m2.force_local": lambda: mod.m2.force_local()}
+for name in (order or ["m1", "m2"]):
+    out[name] = make[name]().version()          # a clone is made when it is first asked (nothing computed the original before)
+print(json.dumps(out))
+"""
+
+
+def declared_dependency_scenarios(root):
+    """functions whose dependencies are declared (`auto_dependencies=False`): their modifier clones have the version of the
+    function, whichever of them is asked first. Returns a list of failures."""
+    import subprocess
+    sub = tempfile.mkdtemp(prefix="decl_", dir=root)
+    d = os.path.join(sub, "vpk")
+    os.makedirs(d)
+    for fn, src in (("__init__.py", ""), ("mod.py", RAW_DECL_MOD)):
+        open(os.path.join(d, fn), "w").write(src)
+    env = dict(os.environ, PYTHONPATH=common.REPO)
+
+    def run(order):
+        p = subprocess.run([common.PY, "-B", "-c", RAW_DECL_CHILD, sub, json.dumps(order)], stdout=subprocess.PIPE,
+                           stderr=subprocess.PIPE, text=True, env=env, timeout=120)
+        if p.returncode != 0:
+            return {"error": p.stderr.strip().split("\\n")[-1][:200]}
+        return json.loads(p.stdout.strip().split("\\n")[-1])
+    fresh = run([])
+    if "error" in fresh:
+        raise common.Infra("declared-dependency scenario does not import: %s" % fresh["error"])
+    fails = []
+    for order in (["m1.ignore_result", "m1", "m1.partial", "m2.force_local", "m2"], ["m1", "m2", "m1.partial", "m1.ignore_result", "m2.force_local"]):
+        got = run(order)
+        for name in order:
+            base = name.split(".")[0]
+            if got.get(name) != fresh.get(base):
+                fails.append(dict(clause="version-equals-fresh-process", fn=name, object="clone" if "." in name else "function",
+                                  event=["create-clone-of-declared-dependency-function"], events=order, in_process=got.get(name, got.get("error")),
+                                  fresh=fresh.get(base)))
+                break
+    shutil.rmtree(sub, ignore_errors=True)
+    return fails
+
+
 def undefined_attribute_scenarios(root):
     """two references to attributes of the same name that do not exist yet, on two modules (`aux.late`, `aux2.late`): defining
     either of them is "defining a previously undefined symbol". Returns a list of failures."""
@@ -520,6 +590,14 @@ def model_replay(prog, marks, events, out):
 
 
 def main(chk, replay=None):
+    if replay is not None and replay.get("raw_declared"):
+        root = tempfile.mkdtemp(prefix="c13r_")
+        try:
+            fails = declared_dependency_scenarios(root)
+            print(json.dumps(dict(still_fails=bool(fails), observed=fails[:2]), default=str))
+            return 1 if fails else 0
+        finally:
+            shutil.rmtree(root, ignore_errors=True)
     if replay is not None and replay.get("raw_undefined"):
         root = tempfile.mkdtemp(prefix="c13r_")
         try:
@@ -596,6 +674,15 @@ def main(chk, replay=None):
         chk.violation({"what": "after defining %s the in-process version of m1 is %s but a fresh process computes %s" % (
             f["events"], f["in_process"], f["fresh"]), "class": {"clause": f["clause"], "event": "define-undefined-attribute", "object": "function"},
             "raw_undefined": True, "source": RAW_UNDEF_MOD, "observed": ufails[:2]})
+    dfails = declared_dependency_scenarios(chk.tmpdir())
+    chk.case(["clones-of-functions-with-declared-dependencies"], nontrivial=True, sample=dict(fails=dfails[:1]))
+    chk.count("event:create-clone-of-declared-dependency-function", 6)
+    if dfails:
+        f = dfails[0]
+        chk.violation({"what": "asked in the order %s, %s reports version %s but a fresh process computes %s for the function" % (
+            f["events"], f["fn"], f["in_process"], f["fresh"]), "class": {"clause": f["clause"], "event": "create-clone", "object": f["object"],
+                                                                             "declared_dependencies": True},
+            "raw_declared": True, "source": RAW_DECL_MOD, "observed": dfails[:2]})
     corpus = json.load(open(os.path.join(os.path.dirname(os.path.abspath(__file__)), "corpus_c13.json")))
     corpus += directed_scenarios() + k5_scenarios()
     seeds = [rng.randrange(1 << 30) for _ in range(nprog)]
